@@ -40,6 +40,9 @@ type fakeEtcd struct {
 	kaCh  chan *clientv3.LeaseKeepAliveResponse
 	kaIDs []clientv3.LeaseID
 	kaSig chan struct{}
+
+	// scripted mode (boot.go): a key space with revisions; Get and Watch are answered by the script
+	boot *bootState
 }
 
 type kvRec struct {
@@ -67,10 +70,18 @@ func opInfo(key string, opts []clientv3.OpOption) (prefix bool, rev int64) {
 
 func (k fakeKV) Get(ctx context.Context, key string, opts ...clientv3.OpOption) (*clientv3.GetResponse, error) {
 	k.f.mu.Lock()
-	defer k.f.mu.Unlock()
 	pref, _ := opInfo(key, opts)
 	k.f.getKeys = append(k.f.getKeys, key)
 	k.f.getPref = append(k.f.getPref, pref)
+	if b := k.f.boot; b != nil {
+		// scripted: the call blocks until the script lets the (evaluated) response through
+		ch := make(chan getReply)
+		b.getWait, b.getEval = ch, nil
+		k.f.mu.Unlock()
+		r := <-ch
+		return r.resp, r.err
+	}
+	defer k.f.mu.Unlock()
 	if k.f.getErr {
 		return nil, errInjected
 	}
@@ -108,6 +119,11 @@ func (w fakeWatcher) Watch(ctx context.Context, key string, opts ...clientv3.OpO
 	w.f.watchKeys = append(w.f.watchKeys, key)
 	w.f.watchPref = append(w.f.watchPref, pref)
 	w.f.watchRevs = append(w.f.watchRevs, rev)
+	if b := w.f.boot; b != nil {
+		// scripted: the channel exists at once (as with the real client), the server side of the
+		// watch - and with it its start revision - only when the script registers it
+		b.w = &bootWatch{ch: ch, ctx: ctx, req: rev}
+	}
 	w.f.mu.Unlock()
 	w.f.watchSig <- struct{}{}
 	return ch
